@@ -308,7 +308,10 @@ def _dfs_iter_tree(
   if isinstance(data, Mapping) and data:
     for k, v in data.items():
       yield from _dfs_iter_tree(v, parent_key_path.at(k))
-  elif isinstance(data, Sequence) and not isinstance(data, str) and data:
+  elif (
+      isinstance(data, Sequence) and not isinstance(data, (str, bytes)) and data
+  ):
+    # bytes is a leaf like str: its elements cannot be read back by a path.
     for i, v in enumerate(data):
       yield from _dfs_iter_tree(v, parent_key_path.at(Index(i)))
   elif parent_key_path:
